@@ -131,6 +131,51 @@ def prefixes(data, stride):
     return [data[:i] for i in sorted(c for c in cuts if c < len(data))]
 
 
+
+NUM_RE = re.compile(rb"^[+-]?(\d+\.?\d*|\.\d+)([eE][+-]?\d+)?$")
+
+
+def token_mutations(data, cap=2500):
+    """Finite, deterministic single-fault corruptions of a valid text file: every numeric token replaced by boundary
+    values, every other token by junk, every line deleted / duplicated / swapped with the next; binary files: each of
+    the first 96 bytes set to 00/7F/80/FF.  Deterministically subsampled to 'cap' inputs."""
+    out = []
+    if b"\0" in data[:200] or (len(data) > 0 and sum(1 for c in data[:200] if c > 126 or (c < 9)) > 8):
+        for i in range(min(96, len(data))):
+            for v in (0x00, 0x7F, 0x80, 0xFF):
+                if data[i] != v:
+                    out.append(data[:i] + bytes([v]) + data[i + 1:])
+    else:
+        lines = data.split(b"\n")
+        for li, line in enumerate(lines):
+            toks = line.split()
+            for ti, tok in enumerate(toks):
+                if ti > 40 and ti % 7:
+                    continue
+                if NUM_RE.match(tok):
+                    reps = [b"0", b"-1", b"1", b"2147483647", b"-2147483648", b"1000000", b"NA", b"1e999", b"nan", b"x"]
+                    try:
+                        v = int(tok)
+                        reps += [str(v + 1).encode(), str(v - 1).encode(), str(2 * v + 3).encode()]
+                    except ValueError:
+                        reps += [b"7"]
+                else:
+                    reps = [b"NA", b"zz9", b"-1", b"#"]
+                for r in reps:
+                    if r == tok:
+                        continue
+                    nt = toks[:ti] + [r] + toks[ti + 1:]
+                    out.append(b"\n".join(lines[:li] + [b" ".join(nt)] + lines[li + 1:]))
+            out.append(b"\n".join(lines[:li] + lines[li + 1:]))             # delete the line
+            out.append(b"\n".join(lines[:li + 1] + [line] + lines[li + 1:])) # duplicate it
+            if li + 1 < len(lines):
+                out.append(b"\n".join(lines[:li] + [lines[li + 1], line] + lines[li + 2:]))
+    if len(out) > cap:
+        step = len(out) / float(cap)
+        out = [out[int(i * step)] for i in range(cap)]
+    return out
+
+
 def fuzz_target(job):
     """runs prefix tier + fuzz tier for one target; returns dict with counts and crash candidates"""
     t, budget, seed = job["target"], job["budget"], job["seed"]
@@ -143,35 +188,42 @@ def fuzz_target(job):
     res = dict(target=t, prefix_not_run=0, execs=0, loaded=0, deep=0, roundtrips=0, prefix_inputs=0, candidates=[], seeds=len(seeds), restarts=0)
     stats = os.path.join(d, "stats.jsonl")
     env = {"FZ_TARGET": t, "FZ_STATS": stats}
-    # ---- prefix tier (deterministic list, run in one process; on a crash continue after the culprit)
+    # ---- enumeration tier (deterministic, finite): every prefix + every single-token corruption of every seed
     plist = []
-    for s in seeds:
-        data = open(s, "rb").read()
-        shutil.copy(s, os.path.join(d, "corpus", os.path.basename(s)))
+    for s_ in seeds:
+        data = open(s_, "rb").read()
+        shutil.copy(s_, os.path.join(d, "corpus", os.path.basename(s_)))
         for i, p in enumerate(prefixes(data, job["stride"])):
-            fn = os.path.join(d, "prefix", "%s.%05d" % (os.path.basename(s), i))
+            fn = os.path.join(d, "prefix", "%s.p%05d" % (os.path.basename(s_), i))
+            open(fn, "wb").write(p)
+            plist.append(fn)
+        for i, p in enumerate(token_mutations(data, job["mutcap"])):
+            fn = os.path.join(d, "prefix", "%s.m%05d" % (os.path.basename(s_), i))
             open(fn, "wb").write(p)
             plist.append(fn)
     res["prefix_inputs"] = len(plist)
+    res["cand_sigs"] = []
     todo = plist
     while todo:
-        rc, out = run([FZ] + LIMITS[:3] + todo[:4000], env=env, timeout=1200)
+        batch = todo[:3000]
+        rc, out = run([FZ] + LIMITS[:3] + batch, env=env, timeout=3600)
         if rc == 0:
-            todo = todo[4000:]
+            todo = todo[3000:]
             continue
-        # find the culprit: libFuzzer prints "Running: <file>" before each input
+        # the culprit is the last "Running: <file>" line; its report is in this output
         running = re.findall(r"Running: (\S+)", out)
-        culprit = running[-1] if running else todo[0]
+        culprit = running[-1] if running else batch[0]
+        sig = signature(out[out.rfind("Running: "):]) or ("exit-%d" % rc)
+        res["cand_sigs"].append((culprit, sig))
         res["candidates"].append(culprit)
-        if len(res["candidates"]) >= job["maxcrash"]:
-            res["prefix_not_run"] = len(todo)
-            break
         if culprit in todo:
             todo = todo[todo.index(culprit) + 1:]
         else:
-            break
-    # ---- fuzz tier: half of the budget from the valid seeds, half from an empty corpus
+            todo = todo[1:]
+    # ---- fuzz tier (thorough only): coverage-guided campaigns from the valid seeds and from an empty corpus
     for phase, corpus in (("seeded", os.path.join(d, "corpus")), ("empty", os.path.join(d, "corpus_empty"))):
+        if budget <= 0:
+            break
         os.makedirs(corpus, exist_ok=True)
         t_end = time.time() + budget / 2.0
         k = 0
@@ -183,7 +235,9 @@ def fuzz_target(job):
             arts = [a for a in glob.glob(os.path.join(d, "art", "*")) if a not in res["candidates"] and not os.path.basename(a).startswith("slow-unit")]
             if rc == 0 or not arts:
                 break
-            res["candidates"] += arts
+            for a in arts:
+                res["candidates"].append(a)
+                res["cand_sigs"].append((a, signature(out) or ("exit-%d" % rc)))
             res["restarts"] += 1
             if res["restarts"] > job["maxcrash"]:
                 break
@@ -194,12 +248,6 @@ def fuzz_target(job):
                 res[k2] += s[k2]
     except OSError:
         pass
-    # signature of every candidate (one run each, in this worker)
-    res["cand_sigs"] = []
-    for c in res["candidates"][:60]:
-        sig, _ = replay(t, c, "w")
-        if sig is not None:
-            res["cand_sigs"].append((c, sig))
     # a few sample inputs (valid seed + one grown corpus entry)
     res["samples"] = []
     for f in (seeds[:1] + sorted(glob.glob(os.path.join(d, "corpus", "*")))[-1:]):
@@ -291,10 +339,11 @@ def check(pid, tier, seed):
             log("[C09] note: stored finding %s no longer fails" % f["id"])
 
     # ---- prefix + fuzz tiers
-    budget = 20 if tier == "quick" else 360
-    stride = 5 if tier == "quick" else 1
-    maxcrash = 10 if tier == "quick" else 40
-    jobs = [dict(target=t, budget=budget, stride=stride, maxcrash=maxcrash, seed=(seed * 1000 + i) % 2000000000 + 1) for i, t in enumerate(TARGETS)]
+    budget = 0 if tier == "quick" else 360
+    stride = 4 if tier == "quick" else 1
+    mutcap = 400 if tier == "quick" else 2500
+    maxcrash = 60
+    jobs = [dict(target=t, budget=budget, stride=stride, mutcap=mutcap, maxcrash=maxcrash, seed=(seed * 1000 + i) % 2000000000 + 1) for i, t in enumerate(TARGETS)]
     with ThreadPoolExecutor(max_workers=os.cpu_count() or 8) as ex:
         results = list(ex.map(fuzz_target, jobs))
     tot = dict(execs=0, loaded=0, deep=0, roundtrips=0, prefix_inputs=0, prefix_not_run=0)
@@ -315,14 +364,16 @@ def check(pid, tier, seed):
               coverage=dict(
                   evaluations=tot["execs"], distinct_nontrivial=tot["deep"], loaded_ok=tot["loaded"],
                   roundtrips_checked=tot["roundtrips"], prefix_inputs=tot["prefix_inputs"],
-                  rule=("inputs = every byte-prefix of every valid seed file (<=4KB; line-prefixes above) + coverage-guided "
-                        "mutations (libFuzzer) from valid seeds and from an empty corpus, per reader; non-trivial ('deep') = the reader "
-                        "accepted the input and returned an object (>200 bytes of input for neutral files, >=2x2 table for CSV, "
-                        ">1 node for grids), which is then used, saved and reloaded; counted by the target itself; distinctness: "
-                        "libFuzzer only keeps coverage-increasing inputs, accepted inputs are counted per execution"),
+                  rule=("enumeration tier (both tiers, deterministic and finite; quick: every 4th byte-prefix + all line-prefixes and <=400 corruptions per seed, thorough: all): for every valid seed file built through the API of the tree under "
+                        "test, every byte-prefix (files <=4KB; line-prefixes above) = every interruption point of a write, and every single-fault "
+                        "corruption (each numeric token -> 0,-1,1,n+1,n-1,2n+3,INT_MAX,INT_MIN,1e6,NA,1e999,nan,junk; each other token -> junk; each line "
+                        "deleted / duplicated / swapped; binary headers: each of the first 96 bytes -> 00/7F/80/FF); thorough tier adds coverage-guided "
+                        "mutation (libFuzzer) from the valid seeds and from an empty corpus, per reader. non-trivial ('deep') = the reader accepted the "
+                        "input and returned an object (>200 bytes of input for neutral files, >=2x2 table for CSV, >1 node for grids), which is then used, "
+                        "saved and reloaded; counted by the target itself per execution"),
                   samples=samples[:10], per_target=per_target, excluded_known=excluded, replayed=replayed,
                   known_findings_reported=[f["id"] for f in known_hits], exhaustive=False,
-                  prefix_stride=stride, prefix_not_run=tot["prefix_not_run"]),
+                  enumeration=dict(prefix_stride=stride, token_mutation_cap_per_seed=mutcap)),
               assumptions=["memory limits: rss 2048 MB, single malloc 1024 MB, 10 s per input",
                            "leak detection off; alloc-dealloc-mismatch (csparse glue) off",
                            "inputs up to 4096 bytes in the fuzz tier"],
